@@ -14,6 +14,7 @@ CLAIMS = {
  "C06": {"engine": "E1-package-pbt", "technique": "property-based testing: structured frame mutation sequences through one processor instance; native fuzzing in the thorough tier; oracle = independent decoder", "design_ref": "DESIGN.md §2 C06", "text": "x", "note": "y"},
  "C07": {"engine": "E1-package-pbt", "technique": "property-based testing under the race detector: generated request streams with injected failures through the real pipeline stages, multiset oracle", "design_ref": "DESIGN.md §2 C07", "text": "x", "note": "y"},
  "C08": {"engine": "E1-package-pbt", "technique": "property-based testing under the race detector: generated target files and per-target outcomes through the real application engine, exactly-once multiset oracle", "design_ref": "DESIGN.md §2 C08", "text": "x", "note": "y"},
+ "C01": {"engine": "E2-cmdwire", "technique": "property-based testing: generated target specifications through full commands on a virtual wire, multiset equality with an independent denotation", "design_ref": "DESIGN.md §2 C01", "text": "x", "note": "y"},
  "C04": {
   "engine": "E1-package-pbt",
   "technique": "property-based testing: bitmap permutation oracle on generated sizes/seeds + exhaustive number-theoretic check of the 32-row table with generated draws",
